@@ -170,6 +170,19 @@ def g4_shard(k, versions, shard_no, nshards):
     return acc.strip()
 
 
+def nesting_shard(versions, ks):
+    """the nesting families of C02 (depth <= 100) as inputs of the listing oracle"""
+    env.setup()
+    from .c02 import nesting_texts
+    fam = {'name': 'nesting', 'versions': versions}
+    ctx = sigma._ctx(MOD, fam)
+    acc = sigma.make_acc(__import__('vp.props.c13', fromlist=['x']))
+    for k in ks:
+        for shape, text in nesting_texts(k):
+            check_text(ctx, fam, text, acc)
+    return acc.strip()
+
+
 def recheck(case):
     return sigma.recheck_text(MOD, case)
 
@@ -205,5 +218,11 @@ def run(tier, seed):
     for a in core.pmap(MOD, 'g4_shard', [(k, vs, s, 64) for s in range(64)]):
         acc.merge(a)
     R.section('G4 templates <= %d statements' % k, acc, versions=vs)
+    acc = core.Acc()
+    ks = list(range(1, 101, 3 if tier == 'quick' else 1)) + [98, 99, 100]
+    nv = ['3.8', '3.13'] if tier == 'quick' else env.VERSIONS
+    for a in core.pmap(MOD, 'nesting_shard', [(nv, [k]) for k in sorted(set(ks))]):
+        acc.merge(a)
+    R.section('nesting families depth <= 100', acc, versions=nv)
     engb.run_plan(R, MOD, tier, seed, quick=(('3.9', 4), ('3.6', 4), ('3.14', 4)))
     return R.finish(recheck)
